@@ -97,6 +97,15 @@ pub fn drive(rt: &tokio::runtime::Runtime, cfg: &LoopCfg, script: Option<Script>
     LoopResult { tapped: tap.take(), events: log.take(), result }
 }
 
+/// client -> outer service -> s3s_aws::Proxy -> aws-sdk-s3 -> inner service -> recorder (events in `log`), for raw requests
+pub fn two_hop_service(log: &EventLog) -> s3s::service::S3Service {
+    let cfg = LoopCfg { host: HostCfg::None, vhost: false, auth: false, hops: 2, route: false };
+    let inner_svc = build_service(&cfg.svc_cfg(), Recorder::new(log.clone()), log);
+    let inner_client = sdk_client(&cfg.client_cfg(), Some(TapClient { svc: inner_svc, tap: Tap::default() }));
+    let proxy = s3s_aws::Proxy::from(inner_client);
+    build_service(&cfg.svc_cfg(), proxy, &EventLog::new())
+}
+
 pub fn binding_of(sname: &str, fname: &str) -> Option<Binding> {
     let (opname, members) = if let Some(op) = sname.strip_suffix("Input") {
         (op, OPS.iter().find(|o| o.name == op)?.in_members)
